@@ -34,7 +34,7 @@ class C13Kernel(KernelProp):
     n_ops = (8, 30)
     weights = {"new": 10, "enter": 14, "exit": 10, "add": 12, "addf": 8, "getnw": 10, "get": 8, "finish": 1,
                "getall": 4, "addtd": 10, "current": 1, "parent": 0, "spawn": 2, "state": 12}
-    gen_kwargs = {"max_ctx": 6, "malformed": 0.02, "wrong_state": 0.45, "exc_end": 0.5, "td_depth": 1, "p_cancel": 0.1, "p_manual": 0.05, "p_mid": 0.15, "p_defer": 0.3, "p_comp": 0.2}
+    gen_kwargs = {"max_ctx": 6, "malformed": 0.02, "wrong_state": 0.45, "exc_end": 0.5, "td_depth": 1, "p_cancel": 0.1, "p_manual": 0.05, "p_mid": 0.15, "p_defer": 0.3, "p_comp": 0.2, "body_get": True}
     rule = ("the full state x operation matrix (never entered / open / inside a teardown callback / closed after clean, "
             "raising-block, cancelled-block, raising-teardown exits) x (add_resource, add_resource_factory, get_resource, "
             "get_resource_nowait, add_teardown_callback, re-entry, closed flag) on both back-ends (exhaustive, both "
@@ -74,6 +74,24 @@ class C13Kernel(KernelProp):
                                       {"op": "addtd", "t": 0, "c": 1, "cb": dict(cb, **{"async": is_async}), "callable": True, "via": "method"},
                                       {"op": "exit", "t": 0, "c": 1, "end": {"k": "ret"}}, {"op": "state", "t": 0, "c": 1},
                                       {"op": "getall", "t": 0, "c": 1, "ty": 1, "via": "method"}]})
+            # … and the lookups an asynchronous callback awaits: something an asynchronous factory has yet to make,
+            # something it made inside the block, a synchronous factory's product, nothing at all
+            for made_before, how in itertools.product((False, True), ("direct", "with_resource")):
+                fac = {"op": "addf", "t": 0, "c": 1, "name": "w", "desc": None, "gated": False, "failFirst": 0,
+                       "noneIn": False, "annot": False, "single": True, "via": "method"}
+                body = [{"op": "get", "ty": 0, "name": "w", "opt": False}, {"op": "get", "ty": 1, "name": "w", "opt": False},
+                        {"op": "get", "ty": 3, "name": "zz", "opt": True}, {"op": "get", "ty": 3, "name": "zz", "opt": False},
+                        {"op": "getnw", "ty": 0, "name": "w", "opt": False}]
+                cb = dict(PROBE_CB, id=2, body=body, **{"async": True})
+                reg = ({"op": "addtd", "t": 0, "c": 1, "cb": cb, "callable": True, "via": "method"} if how == "direct" else
+                       {"op": "add", "t": 0, "c": 1, "types": [2], "vt": 2, "name": "holder", "val": 77, "desc": None,
+                        "badType": False, "badPos": False, "single": True, "td": cb, "tdBad": False, "via": "method"})
+                cases.append({"kind": "ctx", "backend": backend, "origin": f"matrix:closing-await:{made_before}:{how}",
+                              "ops": [{"op": "new", "t": 0, "c": 1, "parent": None}, {"op": "enter", "t": 0, "c": 1},
+                                      {**fac, "types": [0], "fid": 11, "async": True}, {**fac, "types": [1], "fid": 12, "async": False}]
+                                     + ([{"op": "get", "t": 0, "c": 1, "ty": 0, "name": "w", "opt": False, "via": "method"}]
+                                        if made_before else [])
+                                     + [reg, {"op": "exit", "t": 0, "c": 1, "end": {"k": "ret"}}, {"op": "state", "t": 0, "c": 1}]})
             # parent left while a child entered from it (by another task) is still open
             for end in ends[:2]:
                 cases.append({"kind": "ctx", "backend": backend, "origin": f"matrix:open-child:{end['k']}",
@@ -106,7 +124,8 @@ class C13Tasks(C08):
     crash = 0.45
 
     def monitor(self, case, impl):
-        return [f"[C13] task {e['l'][1]}: {e['l'][2]}" for e in impl["trace"] if e["l"][0] == "probeFailed"]
+        return [f"[C13] task {e['l'][1]}: {e['l'][2]}" for e in impl["trace"] if e["l"][0] == "probeFailed"
+                and (len(e["l"]) <= 3 or "C13" in e["l"][3])]
 
     def nontrivial(self, case, impl):
         labels = [e["l"] for e in impl["trace"]]
